@@ -45,6 +45,7 @@ package datatype
 //@ functype datatype.DecoderFunc(f, b) (r, err)
 //@   modifies
 //@   ensures nonnil: err == nil ==> r != nil && valid(r)
+//@   ensures not_a_decoded_group: err == nil ==> !typeis(r, *diam.GroupedAVP)
 //@   ensures [C04] len_preserved: err == nil ==> dlen(r) == len(b)
 //@   ensures [C04] payload_preserved: err == nil ==> forall i int :: 0 <= i && i < len(b) ==> dbyte(r, i) == b[i]
 //@   ensures [C06] private: err == nil && !typeis(r, Grouped) ==> !viewsInto(r, b)
@@ -67,13 +68,13 @@ package datatype
 //@   modifies
 //@   implements datatype.DecoderFunc
 //@   ensures ok: err == nil && typeis(r, Unsigned32)
-//@   ensures [C02] rfc_value: len(b) == 4 ==> uint32(r.(Unsigned32)) == be32(b, 0)
+//@   ensures [C01 C02] rfc_value: len(b) == 4 ==> uint32(r.(Unsigned32)) == be32(b, 0)
 //@ end
 //@ func (Unsigned32).Serialize(v) (r)
 //@   property C01 C02 C03
 //@   modifies
 //@   implements datatype.Type.Serialize
-//@   ensures [C02] rfc_layout: len(r) == 4 && be32(r, 0) == uint32(v) && fresh(r)
+//@   ensures [C01 C02] rfc_layout: len(r) == 4 && be32(r, 0) == uint32(v) && fresh(r)
 //@ end
 //@ func (Unsigned32).Len(v) (r)
 //@   property C01 C02 C03
@@ -97,13 +98,13 @@ package datatype
 //@   modifies
 //@   implements datatype.DecoderFunc
 //@   ensures ok: err == nil && typeis(r, Integer32)
-//@   ensures [C02] rfc_value: len(b) == 4 ==> uint32(r.(Integer32)) == be32(b, 0)
+//@   ensures [C01 C02] rfc_value: len(b) == 4 ==> uint32(r.(Integer32)) == be32(b, 0)
 //@ end
 //@ func (Integer32).Serialize(v) (r)
 //@   property C01 C02 C03
 //@   modifies
 //@   implements datatype.Type.Serialize
-//@   ensures [C02] rfc_layout: len(r) == 4 && be32(r, 0) == uint32(v) && fresh(r)
+//@   ensures [C01 C02] rfc_layout: len(r) == 4 && be32(r, 0) == uint32(v) && fresh(r)
 //@ end
 //@ func (Integer32).Len(v) (r)
 //@   property C01 C02 C03
@@ -127,13 +128,13 @@ package datatype
 //@   modifies
 //@   implements datatype.DecoderFunc
 //@   ensures ok: err == nil && typeis(r, Float32)
-//@   ensures [C02] rfc_value: len(b) == 4 ==> f32bits(r.(Float32)) == be32(b, 0)
+//@   ensures [C01 C02] rfc_value: len(b) == 4 ==> f32bits(r.(Float32)) == be32(b, 0)
 //@ end
 //@ func (Float32).Serialize(v) (r)
 //@   property C01 C02 C03
 //@   modifies
 //@   implements datatype.Type.Serialize
-//@   ensures [C02] rfc_layout: len(r) == 4 && be32(r, 0) == f32bits(v) && fresh(r)
+//@   ensures [C01 C02] rfc_layout: len(r) == 4 && be32(r, 0) == f32bits(v) && fresh(r)
 //@ end
 //@ func (Float32).Len(v) (r)
 //@   property C01 C02 C03
@@ -157,13 +158,13 @@ package datatype
 //@   modifies
 //@   implements datatype.DecoderFunc
 //@   ensures ok: err == nil && typeis(r, Unsigned64)
-//@   ensures [C02] rfc_value: len(b) == 8 ==> uint64(r.(Unsigned64)) == be64(b, 0)
+//@   ensures [C01 C02] rfc_value: len(b) == 8 ==> uint64(r.(Unsigned64)) == be64(b, 0)
 //@ end
 //@ func (Unsigned64).Serialize(v) (r)
 //@   property C01 C02 C03
 //@   modifies
 //@   implements datatype.Type.Serialize
-//@   ensures [C02] rfc_layout: len(r) == 8 && be64(r, 0) == uint64(v) && fresh(r)
+//@   ensures [C01 C02] rfc_layout: len(r) == 8 && be64(r, 0) == uint64(v) && fresh(r)
 //@ end
 //@ func (Unsigned64).Len(v) (r)
 //@   property C01 C02 C03
@@ -187,13 +188,13 @@ package datatype
 //@   modifies
 //@   implements datatype.DecoderFunc
 //@   ensures ok: err == nil && typeis(r, Integer64)
-//@   ensures [C02] rfc_value: len(b) == 8 ==> uint64(r.(Integer64)) == be64(b, 0)
+//@   ensures [C01 C02] rfc_value: len(b) == 8 ==> uint64(r.(Integer64)) == be64(b, 0)
 //@ end
 //@ func (Integer64).Serialize(v) (r)
 //@   property C01 C02 C03
 //@   modifies
 //@   implements datatype.Type.Serialize
-//@   ensures [C02] rfc_layout: len(r) == 8 && be64(r, 0) == uint64(v) && fresh(r)
+//@   ensures [C01 C02] rfc_layout: len(r) == 8 && be64(r, 0) == uint64(v) && fresh(r)
 //@ end
 //@ func (Integer64).Len(v) (r)
 //@   property C01 C02 C03
@@ -217,13 +218,13 @@ package datatype
 //@   modifies
 //@   implements datatype.DecoderFunc
 //@   ensures ok: err == nil && typeis(r, Float64)
-//@   ensures [C02] rfc_value: len(b) == 8 ==> f64bits(r.(Float64)) == be64(b, 0)
+//@   ensures [C01 C02] rfc_value: len(b) == 8 ==> f64bits(r.(Float64)) == be64(b, 0)
 //@ end
 //@ func (Float64).Serialize(v) (r)
 //@   property C01 C02 C03
 //@   modifies
 //@   implements datatype.Type.Serialize
-//@   ensures [C02] rfc_layout: len(r) == 8 && be64(r, 0) == f64bits(v) && fresh(r)
+//@   ensures [C01 C02] rfc_layout: len(r) == 8 && be64(r, 0) == f64bits(v) && fresh(r)
 //@ end
 //@ func (Float64).Len(v) (r)
 //@   property C01 C02 C03
@@ -247,13 +248,13 @@ package datatype
 //@   modifies
 //@   implements datatype.DecoderFunc
 //@   ensures ok: err == nil && typeis(r, Enumerated)
-//@   ensures [C02] rfc_value: len(b) == 4 ==> uint32(r.(Enumerated)) == be32(b, 0)
+//@   ensures [C01 C02] rfc_value: len(b) == 4 ==> uint32(r.(Enumerated)) == be32(b, 0)
 //@ end
 //@ func (Enumerated).Serialize(v) (r)
 //@   property C01 C02 C03
 //@   modifies
 //@   implements datatype.Type.Serialize
-//@   ensures [C02] rfc_layout: len(r) == 4 && be32(r, 0) == uint32(v) && fresh(r)
+//@   ensures [C01 C02] rfc_layout: len(r) == 4 && be32(r, 0) == uint32(v) && fresh(r)
 //@ end
 //@ func (Enumerated).Len(v) (r)
 //@   property C01 C02 C03
@@ -280,13 +281,13 @@ package datatype
 //@   implements datatype.DecoderFunc
 //@   ensures ok: err == nil
 //@   ensures [C03] dyn_type: typeis(r, Time)
-//@   ensures [C02] rfc_value: len(b) == 4 ==> unixOf(r.(Time)) == unix_of_ntp(be32(b, 0))
+//@   ensures [C01 C02] rfc_value: len(b) == 4 ==> unixOf(r.(Time)) == unix_of_ntp(be32(b, 0))
 //@ end
 //@ func (Time).Serialize(v) (r)
 //@   property C01 C02 C03
 //@   modifies
 //@   implements datatype.Type.Serialize
-//@   ensures [C02] rfc_layout: len(r) == 4 && be32(r, 0) == ntp32(unixOf(v)) && fresh(r)
+//@   ensures [C01 C02] rfc_layout: len(r) == 4 && be32(r, 0) == ntp32(unixOf(v)) && fresh(r)
 //@ end
 //@ func (Time).Len(v) (r)
 //@   property C01 C02 C03
@@ -310,13 +311,13 @@ package datatype
 //@   modifies
 //@   implements datatype.DecoderFunc
 //@   ensures ok: err == nil && typeis(r, OctetString)
-//@   ensures [C02] rfc_value: len(r.(OctetString)) == len(b) && forall i int :: 0 <= i && i < len(b) ==> r.(OctetString)[i] == b[i]
+//@   ensures [C01 C02] rfc_value: len(r.(OctetString)) == len(b) && forall i int :: 0 <= i && i < len(b) ==> r.(OctetString)[i] == b[i]
 //@ end
 //@ func (OctetString).Serialize(v) (r)
 //@   property C01 C02 C03
 //@   modifies
 //@   implements datatype.Type.Serialize
-//@   ensures [C02] rfc_layout: len(r) == len(v) && fresh(r)
+//@   ensures [C01 C02] rfc_layout: len(r) == len(v) && fresh(r)
 //@ end
 //@ func (OctetString).Len(v) (r)
 //@   property C01 C02 C03
@@ -340,13 +341,13 @@ package datatype
 //@   modifies
 //@   implements datatype.DecoderFunc
 //@   ensures ok: err == nil && typeis(r, UTF8String)
-//@   ensures [C02] rfc_value: len(r.(UTF8String)) == len(b) && forall i int :: 0 <= i && i < len(b) ==> r.(UTF8String)[i] == b[i]
+//@   ensures [C01 C02] rfc_value: len(r.(UTF8String)) == len(b) && forall i int :: 0 <= i && i < len(b) ==> r.(UTF8String)[i] == b[i]
 //@ end
 //@ func (UTF8String).Serialize(v) (r)
 //@   property C01 C02 C03
 //@   modifies
 //@   implements datatype.Type.Serialize
-//@   ensures [C02] rfc_layout: len(r) == len(v) && fresh(r)
+//@   ensures [C01 C02] rfc_layout: len(r) == len(v) && fresh(r)
 //@ end
 //@ func (UTF8String).Len(v) (r)
 //@   property C01 C02 C03
@@ -370,13 +371,13 @@ package datatype
 //@   modifies
 //@   implements datatype.DecoderFunc
 //@   ensures ok: err == nil && typeis(r, DiameterIdentity)
-//@   ensures [C02] rfc_value: len(r.(DiameterIdentity)) == len(b) && forall i int :: 0 <= i && i < len(b) ==> r.(DiameterIdentity)[i] == b[i]
+//@   ensures [C01 C02] rfc_value: len(r.(DiameterIdentity)) == len(b) && forall i int :: 0 <= i && i < len(b) ==> r.(DiameterIdentity)[i] == b[i]
 //@ end
 //@ func (DiameterIdentity).Serialize(v) (r)
 //@   property C01 C02 C03
 //@   modifies
 //@   implements datatype.Type.Serialize
-//@   ensures [C02] rfc_layout: len(r) == len(v) && fresh(r)
+//@   ensures [C01 C02] rfc_layout: len(r) == len(v) && fresh(r)
 //@ end
 //@ func (DiameterIdentity).Len(v) (r)
 //@   property C01 C02 C03
@@ -400,13 +401,13 @@ package datatype
 //@   modifies
 //@   implements datatype.DecoderFunc
 //@   ensures ok: err == nil && typeis(r, DiameterURI)
-//@   ensures [C02] rfc_value: len(r.(DiameterURI)) == len(b) && forall i int :: 0 <= i && i < len(b) ==> r.(DiameterURI)[i] == b[i]
+//@   ensures [C01 C02] rfc_value: len(r.(DiameterURI)) == len(b) && forall i int :: 0 <= i && i < len(b) ==> r.(DiameterURI)[i] == b[i]
 //@ end
 //@ func (DiameterURI).Serialize(v) (r)
 //@   property C01 C02 C03
 //@   modifies
 //@   implements datatype.Type.Serialize
-//@   ensures [C02] rfc_layout: len(r) == len(v) && fresh(r)
+//@   ensures [C01 C02] rfc_layout: len(r) == len(v) && fresh(r)
 //@ end
 //@ func (DiameterURI).Len(v) (r)
 //@   property C01 C02 C03
@@ -430,13 +431,13 @@ package datatype
 //@   modifies
 //@   implements datatype.DecoderFunc
 //@   ensures ok: err == nil && typeis(r, IPFilterRule)
-//@   ensures [C02] rfc_value: len(r.(IPFilterRule)) == len(b) && forall i int :: 0 <= i && i < len(b) ==> r.(IPFilterRule)[i] == b[i]
+//@   ensures [C01 C02] rfc_value: len(r.(IPFilterRule)) == len(b) && forall i int :: 0 <= i && i < len(b) ==> r.(IPFilterRule)[i] == b[i]
 //@ end
 //@ func (IPFilterRule).Serialize(v) (r)
 //@   property C01 C02 C03
 //@   modifies
 //@   implements datatype.Type.Serialize
-//@   ensures [C02] rfc_layout: len(r) == len(v) && fresh(r)
+//@   ensures [C01 C02] rfc_layout: len(r) == len(v) && fresh(r)
 //@ end
 //@ func (IPFilterRule).Len(v) (r)
 //@   property C01 C02 C03
@@ -460,13 +461,13 @@ package datatype
 //@   modifies
 //@   implements datatype.DecoderFunc
 //@   ensures ok: err == nil && typeis(r, QoSFilterRule)
-//@   ensures [C02] rfc_value: len(r.(QoSFilterRule)) == len(b) && forall i int :: 0 <= i && i < len(b) ==> r.(QoSFilterRule)[i] == b[i]
+//@   ensures [C01 C02] rfc_value: len(r.(QoSFilterRule)) == len(b) && forall i int :: 0 <= i && i < len(b) ==> r.(QoSFilterRule)[i] == b[i]
 //@ end
 //@ func (QoSFilterRule).Serialize(v) (r)
 //@   property C01 C02 C03
 //@   modifies
 //@   implements datatype.Type.Serialize
-//@   ensures [C02] rfc_layout: len(r) == len(v) && fresh(r)
+//@   ensures [C01 C02] rfc_layout: len(r) == len(v) && fresh(r)
 //@ end
 //@ func (QoSFilterRule).Len(v) (r)
 //@   property C01 C02 C03
@@ -490,7 +491,7 @@ package datatype
 //@   modifies
 //@   implements datatype.DecoderFunc
 //@   ensures ok: err == nil && typeis(r, Unknown)
-//@   ensures [C02] rfc_value: len(r.(Unknown)) == len(b) && forall i int :: 0 <= i && i < len(b) ==> r.(Unknown)[i] == b[i]
+//@   ensures [C01 C02] rfc_value: len(r.(Unknown)) == len(b) && forall i int :: 0 <= i && i < len(b) ==> r.(Unknown)[i] == b[i]
 //@ end
 //@ func (Unknown).Serialize(v) (r)
 //@   property C01 C02 C03
@@ -519,7 +520,7 @@ package datatype
 //@   modifies
 //@   implements datatype.DecoderFunc
 //@   ensures ok: err == nil && typeis(r, Grouped)
-//@   ensures [C02] rfc_value: len(r.(Grouped)) == len(b) && forall i int :: 0 <= i && i < len(b) ==> r.(Grouped)[i] == b[i]
+//@   ensures [C01 C02] rfc_value: len(r.(Grouped)) == len(b) && forall i int :: 0 <= i && i < len(b) ==> r.(Grouped)[i] == b[i]
 //@ end
 //@ func (Grouped).Serialize(v) (r)
 //@   property C01 C02 C03
@@ -548,7 +549,7 @@ package datatype
 //@   modifies
 //@   implements datatype.DecoderFunc
 //@   ensures ok: err == nil && typeis(r, IPv4) && len(r.(IPv4)) == 4
-//@   ensures [C02] rfc_value: len(b) == 4 ==> be32(r.(IPv4), 0) == be32(b, 0)
+//@   ensures [C01 C02] rfc_value: len(b) == 4 ==> be32(r.(IPv4), 0) == be32(b, 0)
 //@ end
 //@ func (IPv4).Serialize(v) (r)
 //@   property C01 C02 C03
@@ -575,7 +576,7 @@ package datatype
 //@   modifies
 //@   implements datatype.DecoderFunc
 //@   ensures ok: err == nil && typeis(r, IPv6) && len(r.(IPv6)) == 16
-//@   ensures [C02] rfc_value: len(b) == 16 ==> forall i int :: 0 <= i && i < 16 ==> r.(IPv6)[i] == b[i]
+//@   ensures [C01 C02] rfc_value: len(b) == 16 ==> forall i int :: 0 <= i && i < 16 ==> r.(IPv6)[i] == b[i]
 //@ end
 //@ func (IPv6).Serialize(v) (r)
 //@   property C01 C02 C03
@@ -625,4 +626,106 @@ package datatype
 //@   property C01 C02 C03
 //@   pure
 //@   implements datatype.Type.Type
+//@ end
+//@
+//@ # ======================= C01: round-trip lemmas (lemmas_verif.go) =============
+//@ func lemmaRoundTripUnsigned32(v) (r, err)
+//@   property C01
+//@   modifies
+//@   ensures [C01] identity: err == nil && typeis(r, Unsigned32) && r.(Unsigned32) == v
+//@ end
+//@ func lemmaRoundTripInteger32(v) (r, err)
+//@   property C01
+//@   modifies
+//@   ensures [C01] identity: err == nil && typeis(r, Integer32) && r.(Integer32) == v
+//@ end
+//@ func lemmaRoundTripEnumerated(v) (r, err)
+//@   property C01
+//@   modifies
+//@   ensures [C01] identity: err == nil && typeis(r, Enumerated) && r.(Enumerated) == v
+//@ end
+//@ func lemmaRoundTripFloat32(v) (r, err)
+//@   property C01
+//@   modifies
+//@   ensures [C01] identity_bit_for_bit: err == nil && typeis(r, Float32) && f32bits(r.(Float32)) == f32bits(v)
+//@ end
+//@ func lemmaRoundTripUnsigned64(v) (r, err)
+//@   property C01
+//@   modifies
+//@   ensures [C01] identity: err == nil && typeis(r, Unsigned64) && r.(Unsigned64) == v
+//@ end
+//@ func lemmaRoundTripInteger64(v) (r, err)
+//@   property C01
+//@   modifies
+//@   ensures [C01] identity: err == nil && typeis(r, Integer64) && r.(Integer64) == v
+//@ end
+//@ func lemmaRoundTripFloat64(v) (r, err)
+//@   property C01
+//@   modifies
+//@   ensures [C01] identity_bit_for_bit: err == nil && typeis(r, Float64) && f64bits(r.(Float64)) == f64bits(v)
+//@ end
+//@ # Time: every instant the 32-bit NTP field can carry under the era rule: 1968-01-20T03:14:08Z up to 2104-02-26T09:42:24Z
+//@ func lemmaRoundTripTime(v) (r, err)
+//@   property C01
+//@   modifies
+//@   requires representable: 0 - 61505152 <= unixOf(v) && unixOf(v) < 4233462144
+//@   ensures [C01] identity_to_the_second: err == nil && typeis(r, Time) && unixOf(r.(Time)) == unixOf(v)
+//@ end
+//@ func lemmaRoundTripOctetString(v) (r, err)
+//@   property C01
+//@   modifies
+//@   ensures [C01] identity: err == nil && typeis(r, OctetString) && len(r.(OctetString)) == len(v) && forall i int :: 0 <= i && i < len(v) ==> r.(OctetString)[i] == v[i]
+//@ end
+//@ func lemmaRoundTripUTF8String(v) (r, err)
+//@   property C01
+//@   modifies
+//@   ensures [C01] identity: err == nil && typeis(r, UTF8String) && len(r.(UTF8String)) == len(v) && forall i int :: 0 <= i && i < len(v) ==> r.(UTF8String)[i] == v[i]
+//@ end
+//@ func lemmaRoundTripDiameterIdentity(v) (r, err)
+//@   property C01
+//@   modifies
+//@   ensures [C01] identity: err == nil && typeis(r, DiameterIdentity) && len(r.(DiameterIdentity)) == len(v) && forall i int :: 0 <= i && i < len(v) ==> r.(DiameterIdentity)[i] == v[i]
+//@ end
+//@ func lemmaRoundTripDiameterURI(v) (r, err)
+//@   property C01
+//@   modifies
+//@   ensures [C01] identity: err == nil && typeis(r, DiameterURI) && len(r.(DiameterURI)) == len(v) && forall i int :: 0 <= i && i < len(v) ==> r.(DiameterURI)[i] == v[i]
+//@ end
+//@ func lemmaRoundTripIPFilterRule(v) (r, err)
+//@   property C01
+//@   modifies
+//@   ensures [C01] identity: err == nil && typeis(r, IPFilterRule) && len(r.(IPFilterRule)) == len(v) && forall i int :: 0 <= i && i < len(v) ==> r.(IPFilterRule)[i] == v[i]
+//@ end
+//@ func lemmaRoundTripQoSFilterRule(v) (r, err)
+//@   property C01
+//@   modifies
+//@   ensures [C01] identity: err == nil && typeis(r, QoSFilterRule) && len(r.(QoSFilterRule)) == len(v) && forall i int :: 0 <= i && i < len(v) ==> r.(QoSFilterRule)[i] == v[i]
+//@ end
+//@ func lemmaRoundTripUnknown(v) (r, err)
+//@   property C01
+//@   modifies
+//@   ensures [C01] identity: err == nil && typeis(r, Unknown) && len(r.(Unknown)) == len(v) && forall i int :: 0 <= i && i < len(v) ==> r.(Unknown)[i] == v[i]
+//@ end
+//@ func lemmaRoundTripIPv4(v) (r, err)
+//@   property C01
+//@   modifies
+//@   requires four_octets: len(v) == 4
+//@   ensures [C01] identity: err == nil && typeis(r, IPv4) && len(r.(IPv4)) == 4 && be32(r.(IPv4), 0) == be32(v, 0)
+//@ end
+//@ func lemmaRoundTripIPv6(v) (r, err)
+//@   property C01
+//@   modifies
+//@   requires sixteen_octets: len(v) == 16
+//@   ensures [C01] identity: err == nil && typeis(r, IPv6) && len(r.(IPv6)) == 16 && forall i int :: 0 <= i && i < 16 ==> r.(IPv6)[i] == v[i]
+//@ end
+//@ func lemmaRoundTripAddress(v) (r, err)
+//@   property C01
+//@   modifies
+//@   ensures [C01] same_wire_value: err == nil ==> typeis(r, Address) && dlen(r) == dlen(box(v)) && forall i int :: 0 <= i && i < dlen(r) ==> dbyte(r, i) == dbyte(box(v), i)
+//@ end
+//@ func lemmaDecodeSerialize(f, b) (out)
+//@   property C01
+//@   modifies
+//@   requires f != nil
+//@   ensures [C01] decoded_then_serialised_reproduces_the_bytes: out != nil ==> len(out) == len(b) && forall i int :: 0 <= i && i < len(b) ==> out[i] == b[i]
 //@ end
